@@ -20,6 +20,7 @@ package smtp
 //@   ensures @C02 errcond: err != nil ==> r.state == 5 || (r.limited && old(r.n) <= 0) || r.r.iofail
 //@   ensures @C06 budget: r.limited ==> r.delivered <= r.limit
 //@   ensures @C06 toolarge: err == ErrDataTooLarge ==> r.limited && old(r.n) <= 0 && n == 0
+//@   ensures @C06 limit-transparent: err == ErrDataTooLarge ==> !noMoreOutput(dS(r.r.in, r.start, r.r.pos), r.r.in, r.r.pos)
 //@   loop 1:
 //@     invariant r.r != nil && r.start <= r.r.pos && r.r.pos >= old(r.r.pos) && 0 <= r.state && r.state <= 5
 //@     invariant 0 <= n && n <= len(b)
